@@ -8,6 +8,8 @@ import sys
 from lib import common as C
 from lib import xhrun
 
+from . import contract
+
 sys.path.insert(0, os.path.join(C.VERIF, "xh"))
 
 MOD = "harness_imm"
@@ -216,8 +218,11 @@ def main(pid):
                        "per shape without registry (symbolic output selector, transform flag); discharged = 'Confirmed over all paths' + reachable twin")
     else:
         raise SystemExit(f"no check for {pid}")
+    cfut = contract.start(pid) if pid == "C14" else None
     results = xhrun.run_conditions(pid, conds)
     code = xhrun.summarize(pid, results, ev)
+    if cfut is not None:
+        code = contract.finish(pid, cfut, ev, code)
     cov["stub_validations"] = n_valid
     cov["explanation"] = ("bounded symbolic execution of the real uberjob code: CrossHair enumerates every feasible path of the harness for the given "
                           "case (shape, output kind, cut index ...) and z3 discharges each path condition ('Confirmed over all paths'); symbolic values "
